@@ -202,7 +202,7 @@ func init() {
 			Rule: "all subsets of {credential, drop-caps, no-new-privs, seccomp, sync callback, unshare-cgroup-after-sync} × namespace mode {none, user, pid+mnt+uts+ipc+net, user+those, those+pivot root, user+those+pivot root} × " +
 				"{no tracing, ptrace (harness attaches and detaches), stop-before-seccomp} (quick: tracing modes only without namespaces) with work dir and host/domain name set whenever the namespaces allow; " +
 				"plus host and domain names of every length combination over {1, 7, 64, 65} bytes in a new UTS namespace (names the kernel takes must be what the program sees, a name it refuses must refuse the launch); the launched probe reports caps, securebits, no_new_privs, seccomp mode, ids, groups, session, cwd, uname; namespace identities are read from the host side. " +
-				"second launcher: container.Builder + Execve over {credential generator none / default ids / custom ids, custom host+domain name, custom work dir, seccomp filter, unshare-cgroup-before-exec, sync after exec, clone into a cgroup v2 directory, custom clone flags without a net namespace}. non-trivial: at least one option set; distinct = (option set, observed state vector)",
+				"second launcher: container.Builder + Execve over {credential generator none / default ids / custom ids / custom uid only / custom gid only, custom host+domain name, custom work dir, seccomp filter, unshare-cgroup-before-exec, sync after exec, clone into a cgroup v2 directory, custom clone flags without a net namespace}. non-trivial: at least one option set; distinct = (option set, observed state vector)",
 			Bound:       map[string]any{"clone_into_cgroup": "exercised through the container launcher with a directory of the controller-less cgroup2 hierarchy at /sys/fs/cgroup/unified", "ctty": "not exercised"},
 			Assumptions: []string{"reference function options → state written from the property text (cmd/vcheck/c04.go)", "combinations the kernel rejects surface as a launch error and are recorded, not judged"},
 			SplitDepth:  3,
@@ -408,7 +408,7 @@ func c04names(x *mc.X) {
 }
 
 func c04container(x *mc.X, myNS map[string]string) {
-	cred := x.Choose(3, "credential") // 0 none, 1 default container ids, 2 custom ids
+	cred := x.Choose(5, "credential") // 0 none, 1 default container ids, 2 custom ids, 3 custom uid only, 4 custom gid only (the other id keeps its default)
 	names := x.Bool("custom-host-domain")
 	filter := x.Bool("seccomp")
 	syncAfter := x.Bool("sync-after-exec")
@@ -432,8 +432,13 @@ func c04container(x *mc.X, myNS map[string]string) {
 		if cred > 0 {
 			b.CredGenerator = fixedCred{}
 		}
-		if cred == 2 {
+		switch cred {
+		case 2:
 			b.ContainerUID, b.ContainerGID = 1234, 2345
+		case 3:
+			b.ContainerUID = 1234
+		case 4:
+			b.ContainerGID = 2345
 		}
 		if names {
 			b.HostName, b.DomainName = "c04host", "c04domain"
@@ -576,6 +581,10 @@ func c04container(x *mc.X, myNS map[string]string) {
 		wantU, wantG = 1000, 1000
 	case 2:
 		wantU, wantG = 1234, 2345
+	case 3:
+		wantU, wantG = 1234, 1000
+	case 4:
+		wantU, wantG = 1000, 2345
 	}
 	chk(rep.UID == [3]int{wantU, wantU, wantU} && rep.GID == [3]int{wantG, wantG, wantG}, "ids", "uids %v gids %v, expected %d/%d", rep.UID, rep.GID, wantU, wantG)
 	if cred != 0 {
